@@ -58,6 +58,7 @@ type VC struct {
 	csHit         map[*CallSite]bool
 	indexTerms    []string
 	knownRefs     []string
+	markHeaps     map[string]*Heap
 	progTerms     []skolem
 	cuts          []cutPoint
 	privRefs      []string
